@@ -43,6 +43,9 @@ enum Act {
     /// rflags wrappers and leaves it flipped: ID as CPUID probing does, AC as a `stac` region,
     /// NT, or the (simulated) TF of a debugger that starts or stops stepping
     SysFlag(u8),
+    /// inside a closure (flag clear): open an interrupt window - enable, do things (further
+    /// sections among them), disable again; leaves the flag as it found it
+    Window { body: Vec<Act> },
 }
 
 fn parse(v: &Value) -> Act {
@@ -58,6 +61,7 @@ fn parse(v: &Value) -> Act {
         "disable" => Act::Disable,
         "are_enabled" => Act::AreEnabled,
         "enable_and_hlt" => Act::EnableAndHlt(v["site"].as_u64().unwrap_or(0) as u8 & 63),
+        "window" => Act::Window { body: v["body"].as_array().map(|a| a.iter().map(parse).collect()).unwrap_or_default() },
         "sysflag" => Act::SysFlag(v["bit"].as_u64().unwrap_or(21) as u8),
         "arrive" => Act::Arrive(v["vector"].as_u64().unwrap_or(32) as u8),
         "arrive_later" => Act::ArriveLater(v["vector"].as_u64().unwrap_or(32) as u8, v["after"].as_u64().unwrap_or(1)),
@@ -69,7 +73,7 @@ fn gen_body(rng: &mut Rng, depth: u32, next_id: &mut u32, top: bool) -> Vec<Valu
     let n = if top { rng.range(1, 6) } else { rng.below(4) };
     let mut out = vec![];
     for _ in 0..n {
-        let k = if top { rng.weighted(&[60, 0, 20, 20, 20, 30, 30, 20, 10, 20, 20, 30, 3, 25, 8]) } else { rng.weighted(&[4, 3, 0, 0, 2, 0, 3, 2, 2, 2, 2, 0, 0, 2, 2]) };
+        let k = if top { rng.weighted(&[60, 0, 20, 20, 20, 30, 30, 20, 10, 20, 20, 30, 3, 25, 8]) } else { rng.weighted(&[4, 3, 0, 0, 2, 0, 3, 2, 2, 2, 2, 0, 0, 2, 2, 2]) };
         out.push(match k {
             0 if depth < 6 => {
                 let id = *next_id;
@@ -91,6 +95,8 @@ fn gen_body(rng: &mut Rng, depth: u32, next_id: &mut u32, top: bool) -> Vec<Valu
             }
             10 => json!({"op": "probe3"}),
             13 => json!({"op": "leaf", "kind": rng.below(3), "seed": rng.next()}),
+            15 if depth < 6 => json!({"op": "window", "body": gen_body(rng, depth + 1, next_id, false)}),
+            15 => json!({"op": "work", "n": 1}),
             14 => json!({"op": "sysflag", "bit": *rng.pick(&[21u64, 21, 18, 18, 14, 8])}),
             12 => {
                 let id = *next_id;
@@ -409,6 +415,11 @@ fn exec(acts: &[Act], obs: &mut Obs) {
             Act::Work(n) => {
                 work(*n);
             }
+            Act::Window { body } => {
+                interrupts::enable();
+                exec(body, obs);
+                interrupts::disable();
+            }
             Act::SysFlag(b) => {
                 let v = x86_64::registers::rflags::read_raw();
                 unsafe { x86_64::registers::rflags::write_raw(v ^ (1 << (*b & 31))) };
@@ -420,7 +431,7 @@ fn exec(acts: &[Act], obs: &mut Obs) {
 /// which other system flags the action itself flips (through all nesting levels)
 fn sys_toggles(acts: &[Act]) -> u64 {
     acts.iter().fold(0, |m, a| match a {
-        Act::Wi { body, .. } => m ^ sys_toggles(body),
+        Act::Wi { body, .. } | Act::Window { body } => m ^ sys_toggles(body),
         Act::SysFlag(b) => m ^ (1 << (*b & 31)),
         _ => m,
     })
@@ -451,6 +462,13 @@ impl Model {
                         self.seq.push(Ev::Sti);
                         self.iflag = true;
                     }
+                }
+                Act::Window { body } => {
+                    self.seq.push(Ev::Sti);
+                    self.iflag = true;
+                    self.run(body);
+                    self.seq.push(Ev::Cli);
+                    self.iflag = false;
                 }
                 Act::Pair => {
                     self.seq.push(Ev::Pushfq { val: 0 });
@@ -667,6 +685,7 @@ pub fn run(rp: &Replay, st: &mut Stats) -> Option<Violation> {
             fn d(a: &Act) -> u64 {
                 match a {
                     Act::Wi { body, .. } => 1 + body.iter().map(d).max().unwrap_or(0),
+                    Act::Window { body } => body.iter().map(d).max().unwrap_or(0),
                     _ => 0,
                 }
             }
@@ -688,6 +707,7 @@ pub fn run(rp: &Replay, st: &mut Stats) -> Option<Violation> {
             Act::ArriveLater(..) => 7,
             Act::Work(_) => 8,
             Act::SysFlag(_) => 16,
+            Act::Window { .. } => 17,
         };
         st.distinct_key(&[kind, if_before as u64, depth(a), pending_before as u64, trace.iter().filter(|e| matches!(e, Ev::Deliver { .. })).count().min(3) as u64, trace.len().min(40) as u64]);
     }
